@@ -47,8 +47,8 @@ func expectedCanvases(s *gen.AnimSeq) []*image.NRGBA {
 func seqImages(s *gen.AnimSeq) ([]image.Image, []int) {
 	var imgs []image.Image
 	var durs []int
-	for _, f := range s.Frames {
-		imgs = append(imgs, &image.NRGBA{Pix: append([]byte(nil), f.Pix...), Stride: f.W * 4, Rect: image.Rect(0, 0, f.W, f.H)})
+	for i, f := range s.Frames {
+		imgs = append(imgs, s.Frames[i].Image())
 		durs = append(durs, f.DurMS)
 	}
 	return imgs, durs
